@@ -826,6 +826,12 @@ theorem lDeliver_enabled {s : State} {t : Tid} {om : Option Msg}
   repeat' split
   all_goals rfl
 
+/- Scope of `C06_no_stuck` (and of `C06_measure_decreases` as a termination argument): the obliged
+   step may be `sRecv`, which the model enables whenever `c2s` is non-empty - ASSUMPTION E of
+   Model/AtpClient.lean (a write to the server completes without waiting for the peer).  client.go
+   writes while holding the client mutex; against a peer that stops reading while its own output is
+   not consumed (the library's server over unbuffered pipes) E fails and the real client deadlocks
+   although this theorem holds of the model: harness sessions `backpressure-*`. -/
 /-- C06 (3): on a healthy connection an Execute that has sent its work-start and whose entry is
     still pending is never left alone: some step that the system itself owes (the read loop's next
     step, the server reading its input, the server's answer to an accepted work-start, or the
